@@ -237,4 +237,15 @@ def run(ctx):
         check_sweep_string(ctx, {"text": s, "sweep": True})
     ctx.info["sweep_size"] = len(cases)
     ctx.info["sweep_exhaustive_within"] = "depth-2 nestings over 8x5x5 leaf kinds, negation nestings, depth-3 operator nestings"
+    # rule outputs from the deterministic template corners: every rule template x coefficient coincidence, and every text
+    # one edit away from a template, parsed, every applicable rule applied at every node, each result printed and re-read
+    texts = G.sweep_texts() + G.neighbour_texts()
+    step = 4 if ctx.tier == "quick" else 1
+    for i, t in enumerate(texts):
+        if i % step != ctx.seed % step or (i // step) % ctx.nshards != ctx.shard:
+            continue
+        ctx.count("evaluations")
+        ctx.count("template-corners:cases")
+        check_tree(ctx, {"text": t, "pre": []})
+    ctx.info["template_corner_texts"] = f"{len(texts)} texts (template sweep + one-edit neighbours); every {step}th in this tier"
     hyp_run(ctx, "g-tree", G.tree_case(12 if ctx.tier == "quick" else 24, max_pre=6), check_tree, ctx.n(1200, 10000))
